@@ -196,7 +196,7 @@ def oracles {α} (A : Arith α) (units : Int → α) (c : Case) : Out α → Str
        ("C04q", okC04quota A ctx c2 acts), ("C04c", okC04complete A ctx acts),
        ("C05", c05skip || okC05 A ctx c2 allowance acts),
        ("C06", !greg || okC06 A c.ballots acts), ("C06r", !greg || okC06rew A ctx c2 acts),
-       ("C07b", okC07batch A ctx acts), ("C07l", okC07largest A ctx acts), ("C07t", okC07ties A ctx c2 acts),
+       ("C07b", okC07batch A ctx acts), ("C07l", okC07largest A ctx acts), ("C07t", okC07ties A ctx c2 acts), ("C07s", okC07scot A ctx c2 acts),
        ("C08c", !meek || okC08cons A ctx acts), ("C08t", !meek || okC08timing A ctx omega acts),
        ("C08k", !meek || okC08kf A ctx acts)]
     " ".intercalate (kv.map (fun (k, v) => s!"{k}={b2s v}"))
